@@ -10,7 +10,10 @@
 
    (1) Coercion.Attempts.ActionRun.run_action retries script: a deterministic transcription of
        actions.Runner.Start / Execute / exec / run / End and of Backoff.Retry (Azure/retry), with
-       script k = what the plugin's k-th invocation does (OOk | OErr | OPerm | OWrongType | OOverrun).
+       script k = what the plugin's k-th invocation does: OOverrun, or ORet rs er = it returns the PAIR
+       (response, error) with rs : PNil | PGood | PBad (nil / declared type / any other type) and
+       er : PNoErr | PTrans | PPerm - all 10 combinations (OOk, OErr, OPerm, OWrongType are notations for
+       ORet PGood PNoErr, ORet PNil PTrans, ORet PNil PPerm, ORet PBad PNoErr).
        w_calls = plugin invocations, w_ctx = per invocation "the plugin saw its context cancelled",
        w_attempts = action.Attempts (RGood k / EPlug k p = the response / error invocation k returned;
        EEngine false = the engine's timeout error, EEngine true = the engine's response-type error),
@@ -40,28 +43,43 @@ Theorem c05_calls_bounded :
 Proof. exact thm_calls_bounded. Qed.
 Print Assumptions c05_calls_bounded.
 
-(* never again after an attempt succeeded, returned a permanent error, or returned a wrong-typed response:
-   such an invocation is the last one *)
+(* no invocation after an attempt that succeeded (no error and the response nil or of the declared type), returned a
+   permanent error, or returned a wrong-typed response (whatever the error): such an invocation is the last one *)
 Theorem c05_stops :
   forall (retries : nat) (script : nat -> outcome) (i : nat),
     i < w_calls (run_action retries script) ->
-    (script i = OOk \/ script i = OPerm \/ script i = OWrongType) ->
+    match script i with
+    | ORet PBad _ => True            (* a wrong-typed response, whatever the error *)
+    | ORet _ PNoErr => True          (* success *)
+    | ORet _ PPerm => True           (* a permanent error *)
+    | ORet _ PTrans | OOverrun => False
+    end ->
     w_calls (run_action retries script) = i + 1.
 Proof. exact thm_stops. Qed.
 Print Assumptions c05_stops.
 
-(* ... and the engine does not give up early: fewer than Retries+1 invocations only after a final outcome *)
+(* ... and the engine does not give up early: fewer than Retries+1 invocations only after such an outcome *)
 Theorem c05_retries_used :
   forall (retries : nat) (script : nat -> outcome),
     w_calls (run_action retries script) < retries + 1 ->
-    let o := script (w_calls (run_action retries script) - 1) in o = OOk \/ o = OPerm \/ o = OWrongType.
+    match script (w_calls (run_action retries script) - 1) with
+    | ORet PBad _ => True
+    | ORet _ PNoErr => True
+    | ORet _ PPerm => True
+    | ORet _ PTrans | OOverrun => False
+    end.
 Proof. exact thm_retries_used. Qed.
 Print Assumptions c05_retries_used.
 
 (* every invocation is recorded as exactly one attempt, in order: as many attempts as invocations, and the i-th
-   attempt carries what the i-th invocation returned - the response iff OOk; the plugin's own error for OErr /
-   OPerm; for OOverrun the engine's non-permanent timeout error, no response, and the plugin saw its context
-   cancelled (and only then); for OWrongType the engine's permanent type error and NO response; start <= end *)
+   attempt carries what the i-th invocation returned:
+     - OOverrun: the engine's non-permanent timeout error, no response; the plugin saw its context cancelled (and
+       only then);
+     - a wrong-typed response (ORet PBad _), WHATEVER error came with it: the engine's permanent type error and NO
+       response - the junk is never stored, the plugin's error is replaced;
+     - otherwise the pair as returned: the response iff one was returned (also next to an error), the plugin's own
+       error (tag i, its permanence) iff one was returned;
+   and start <= end *)
 Theorem c05_all_recorded :
   forall (retries : nat) (script : nat -> outcome),
     let w := run_action retries script in
@@ -69,11 +87,11 @@ Theorem c05_all_recorded :
     forall i, i < w_calls w ->
       exists a, nth_error (w_attempts w) i = Some a /\
         match script i with
-        | OOk => ar_resp a = RGood i /\ ar_err a = ENone
-        | OErr => ar_resp a = RNone /\ ar_err a = EPlug i false
-        | OPerm => ar_resp a = RNone /\ ar_err a = EPlug i true
-        | OWrongType => ar_resp a = RNone /\ ar_err a = EEngine true
         | OOverrun => ar_resp a = RNone /\ ar_err a = EEngine false
+        | ORet PBad _ => ar_resp a = RNone /\ ar_err a = EEngine true
+        | ORet rs er =>
+            ar_resp a = match rs with PGood => RGood i | _ => RNone end /\
+            ar_err a = match er with PNoErr => ENone | PTrans => EPlug i false | PPerm => EPlug i true end
         end /\
         1 <= ar_start a /\ ar_start a <= ar_end a /\
         nth_error (w_ctx w) i = Some (match script i with OOverrun => true | _ => false end).
@@ -97,7 +115,8 @@ Theorem c05_final_status :
     let w := run_action retries script in
     (w_status w = Completed \/ w_status w = Failed) /\
     (forall a, nth_error (w_attempts w) (w_calls w - 1) = Some a -> (w_status w = Completed <-> ar_err a = ENone)) /\
-    ((forall i, i <= retries -> script i = OErr \/ script i = OOverrun) ->
+    ((forall i, i <= retries ->
+        match script i with OOverrun | ORet PNil PTrans | ORet PGood PTrans => True | _ => False end) ->
        w_status w = Failed /\ w_calls w = retries + 1 /\ length (w_attempts w) = retries + 1).
 Proof. exact thm_final_status. Qed.
 Print Assumptions c05_final_status.
@@ -121,7 +140,9 @@ Theorem c05_auto_trace :
   forall (retries : nat) (tr : list aevent) (s : ast),
     arun retries tr = Some s ->
     count_starts tr <= retries + 1 /\
-    (forall tr1 o tr2, tr = tr1 ++ AEnd o :: tr2 -> (o = OOk \/ o = OPerm \/ o = OWrongType) -> count_starts tr2 = 0) /\
+    (forall tr1 o tr2, tr = tr1 ++ AEnd o :: tr2 ->
+       match o with ORet PBad _ | ORet _ PNoErr | ORet _ PPerm => True | ORet _ PTrans | OOverrun => False end ->
+       count_starts tr2 = 0) /\
     (forall tr1 tr2, tr = tr1 ++ AStart :: tr2 ->
        In AWRun tr1 /\ (count_starts tr1 = 0 \/ exists ok, In (AWAtt (count_starts tr1) ok) tr1) /\
        count_starts tr1 <= retries) /\
@@ -153,10 +174,13 @@ Print Assumptions c05_checker_holds_on_model.
 
 (* concrete instances (vm_compute): ActionTheorems.ex_run_2 (err, overrun, ok with retries 2: Completed, 3 attempts,
    context cancelled in the second invocation only), ex_run_1 (same script, retries 1: Failed after retries+1),
-   ex_wrong_type, ex_appendix_b, ex_late_end (accepted traces), ex_rejects (six traces the automaton refuses). *)
+   ex_wrong_type, ex_pairs (wrong type + transient error: permanent, not stored; good response + transient error:
+   stored with the error, retried), ex_nil_ok, ex_appendix_b, ex_late_end (accepted traces), ex_rejects (six traces the automaton refuses). *)
 Check ex_run_2.
 Check ex_run_1.
 Check ex_wrong_type.
+Check ex_pairs.
+Check ex_nil_ok.
 Check ex_appendix_b.
 Check ex_late_end.
 Check ex_rejects.
